@@ -131,8 +131,21 @@ def check_state(sim, env, fleets):
     disp = Dispatcher(env.config.dispatcher)
     _, all_instr = disp.generate_instructions(sim, env)
     per_fleet_total = []
+    # C17, third sentence: one run of the built-in dispatcher (all fleets) sends at most one vehicle to any request
+    rq = [i.request_id for i in all_instr]
+    twice = sorted(set(r for r in rq if rq.count(r) > 1))
+    if twice:
+        viol.append(('request_dispatched_to_two_vehicles_in_one_run', {'requests': twice, 'fleets': sorted(fleets),
+                                                                       'pairs': [(i.vehicle_id, i.request_id) for i in all_instr],
+                                                                       'request_fleets': {r: sorted(sim.requests[r].membership.memberships) for r in twice}}))
+    sim_all = sim
     for fleet in (sorted(fleets) if fleets else [None]):
         env_f = env._replace(fleet_ids=frozenset([fleet])) if fleet is not None else env
+        # fleets are solved one after the other; a request an earlier fleet's assignment took is no longer open to the next
+        sim = sim_all
+        for (v0, r0) in per_fleet_total:
+            if not sim.requests[r0].dispatched_vehicle:
+                sim = sso.modify_request_safe(sim, sim.requests[r0].assign_dispatched_vehicle(v0, sim.sim_time)).unwrap()
         _, instrs = disp.generate_instructions(sim, env_f)
         pairs = [(i.vehicle_id, i.request_id) for i in instrs]
         per_fleet_total += pairs
@@ -181,7 +194,7 @@ def check_state(sim, env, fleets):
         viol.append(('multi_fleet_run_differs_from_per_fleet_runs', {'all': [(i.vehicle_id, i.request_id) for i in all_instr], 'per_fleet': per_fleet_total}))
     return viol, certs
 
-KINDS = {'C12': None, 'C10': ['ineligible_vehicle_dispatched', 'ineligible_request_dispatched'], 'C17': ['already_assigned_request_dispatched'],
+KINDS = {'C12': None, 'C10': ['ineligible_vehicle_dispatched', 'ineligible_request_dispatched'], 'C17': ['already_assigned_request_dispatched', 'request_dispatched_to_two_vehicles_in_one_run'],
          'C20': ['off_shift_driver_dispatched']}
 
 def engine(res, spec, tier, seed, extended=False):
